@@ -250,6 +250,13 @@ def _s_return_int(s):
     s.ret = None
 
 
+def _s_arg_drops_receiver(s):
+    # the receiver is the first element of t; evaluating the argument removes that element from the table
+    if not s.t:
+        return False
+    s.t.pop(0)
+
+
 def _s_tab_failing_item(s):
     # the item expression is evaluated per element: the first evaluation makes an object, the second one raises
     s.new()
@@ -298,6 +305,8 @@ STMTS = {
     "return-var": ("return a;", _s_return_var),
     "return-temp": ("return vmod(31);", _s_return_temp),
     "return-int": ("return 5;", _s_return_int),
+    # the argument of a method removes the receiver from the table that held it: the object lives until its method has returned
+    "arg-drops-receiver": ("zz = t.at(0).hold(t.delete(0).count());", _s_arg_drops_receiver),
     "forall-failing-body": ("forall e in t loop zz = vmod(11).get(); raise efail; end loop;", _s_failing_body),
 }
 FAILING = {"forall-refused-temp", "forall-refused-var", "forall-failing-body"}
